@@ -2099,29 +2099,39 @@ func registerMisc() {
 		return (*p).(*Opaque).data.(*regexp.Regexp)
 	}
 	I["(*regexp.Regexp).MatchString"] = func(in *Interp, fr *frame, fn *ssa.Function, a []value) value {
-		return in.tc.Bool(reOf(a[0]).MatchString(in.mustStr(a[1], "regexp.MatchString")))
+		loc, _ := in.rxFind(reOf(a[0]), a[1])
+		return in.tc.Bool(loc != nil)
 	}
 	I["(*regexp.Regexp).String"] = func(in *Interp, fr *frame, fn *ssa.Function, a []value) value {
 		return reOf(a[0]).String()
 	}
 	I["(*regexp.Regexp).FindStringSubmatch"] = func(in *Interp, fr *frame, fn *ssa.Function, a []value) value {
-		r := reOf(a[0]).FindStringSubmatch(in.mustStr(a[1], "regexp.FindStringSubmatch"))
-		if r == nil {
+		loc, s := in.rxFind(reOf(a[0]), a[1])
+		if loc == nil {
 			return []value(nil)
 		}
-		out := make([]value, len(r))
-		for i, s := range r {
-			out[i] = s
+		out := make([]value, len(loc)/2)
+		for i := range out {
+			if loc[2*i] < 0 {
+				out[i] = ""
+				continue
+			}
+			sub := &SymStr{b: s.b[loc[2*i]:loc[2*i+1]:loc[2*i+1]]}
+			if str, ok := symStrConcrete(sub); ok {
+				out[i] = str
+			} else {
+				out[i] = sub
+			}
 		}
 		return out
 	}
 	I["(*regexp.Regexp).FindStringSubmatchIndex"] = func(in *Interp, fr *frame, fn *ssa.Function, a []value) value {
-		r := reOf(a[0]).FindStringSubmatchIndex(in.mustStr(a[1], "regexp.FindStringSubmatchIndex"))
-		if r == nil {
+		loc, _ := in.rxFind(reOf(a[0]), a[1])
+		if loc == nil {
 			return []value(nil)
 		}
-		out := make([]value, len(r))
-		for i, s := range r {
+		out := make([]value, len(loc))
+		for i, s := range loc {
 			out[i] = in.i64(int64(s))
 		}
 		return out
